@@ -179,7 +179,12 @@ def run(ck):
             ph = it.get_attr(s, "rbm_ph", None)
             order = [n for n, _ in module_params(it, ph)]
             roles = {r: n for r, (n, _) in params_by_shape(it, ph).items()}
-            out = {"order": order, "roles": roles}
+            from ..values import dim_size
+
+            numel = {}
+            for n_, q_ in module_params(it, ph):
+                numel[n_] = dim_size(("flat", tuple(q_.shape))) if len(q_.shape) > 1 else dim_size(q_.shape[0])
+            out = {"order": order, "roles": roles, "numel": numel}
             for expand, sv, svp in ((True, ("Bv", "nv"), ("Bp", "nv")), (False, ("B", "nv"), ("B", "nv"))):
                 v, vp = tens(it, "v", sv), tens(it, "vp", svp)
                 out[("gamma_grad", expand)] = call(it, ph, "gamma_grad", v, vp, eta=VConst(-1), expand=VConst(expand))
@@ -198,9 +203,29 @@ def run(ck):
                 fn, expand = key
                 site = prog.method("PurificationRBM" if fn == "gamma_grad" else "DensityMatrix", fn).site()
                 segs = cat_segments(v.term) if v.term is not None else [None]
+                # a tail of the vector overwritten with zeros afterwards: x[..., -L:] = 0 on a concatenation of parameter segments
+                tail_L = None
+                at_ = v.term.single_atom() if v.term is not None else None
+                if at_ is not None and isinstance(at_, T.App) and at_.op == "upd" and at_.args[2].is_zero() and at_.args[1] and isinstance(at_.args[1][-1], (tuple, list)) and at_.args[1][-1][0] == "slice" \
+                        and at_.args[1][-1][2] is None and at_.args[1][-1][3] is None and all(x == "ellipsis" or tuple(x) == ("slice", None, None, None) for x in at_.args[1][:-1]):
+                    lo = at_.args[1][-1][1]
+                    lo = lo if hasattr(lo, "syms") else (T.const(lo) if isinstance(lo, int) else None)
+                    if lo is not None:
+                        tail_L = -lo
+                        segs = cat_segments(at_.args[0])
                 names = ["real", "imag"]
                 for part, sg in zip(names, segs):
                     inst = "%s/expand=%s/%s" % (fn, expand, part)
+                    if tail_L is not None and sg is not None and sg != "zero" and len(sg) == len(o["order"]):
+                        last = o["order"][-1]
+                        if k_d == len(o["order"]) - 1 and tail_L == o["numel"][last]:
+                            sg = list(sg)
+                            sg[k_d] = T.ZERO
+                        else:
+                            ck.violation("C20.R5", inst + ":aux_bias segment is zero", site,
+                                         "the last %r entries of the gradient vector are set to zero, but the auxiliary-bias segment is the last %r entries: with num_hidden != num_aux part of the "
+                                         "auxiliary-bias gradient survives (or part of the hidden-bias gradient is lost)" % (tail_L, o["numel"][last]))
+                            continue
                     if sg == "zero":
                         ck.ok("C20.R5", inst + ":aux_bias segment is zero", site)
                         continue
@@ -213,16 +238,28 @@ def run(ck):
                         ck.check(sg[k_U].is_zero(), "C20.R5", inst + ":weights_U segment is zero", site, "Gamma does not depend on U, but its U-gradient segment is %r" % (sg[k_U],))
             # ph_grads = i*gamma_grad(-) + pi_grad(phase=True): the sum's aux segment
             t = o["ph_grads"].term
-            comps = T.as_stack0(t) if t is not None else None
             ok = None
-            if comps is not None:
-                ok = True
-                for c in comps:
-                    # linear combination of cat atoms: every cat's aux segment must be zero
-                    for a in c.all_atoms():
-                        if isinstance(a, T.App) and a.op == "cat" and len(a.args[0]) == len(o["order"]):
-                            if not a.args[0][k_d].is_zero():
-                                ok = False
+            if t is not None:
+                last_n = o["numel"][o["order"][-1]]
+
+                def zero_tail(a):
+                    """upd(x, [..., -L:], 0) with L = length of the (last) auxiliary-bias segment"""
+                    if not (isinstance(a, T.App) and a.op == "upd" and a.args[2].is_zero() and a.args[1] and isinstance(a.args[1][-1], (tuple, list)) and a.args[1][-1][0] == "slice"):
+                        return False
+                    lo = a.args[1][-1][1]
+                    lo = lo if hasattr(lo, "syms") else (T.const(lo) if isinstance(lo, int) else None)
+                    return lo is not None and a.args[1][-1][2] is None and k_d == len(o["order"]) - 1 and -lo == last_n
+
+                # a linear combination of gradient vectors: every one must have a zero auxiliary-bias segment (a concatenation whose
+                # segment is zero, or a vector whose tail of that length was overwritten with zeros afterwards)
+                atoms = list(t.all_atoms())
+                covered = set()
+                for a in atoms:
+                    if zero_tail(a):
+                        covered |= set(a.args[0].all_atoms())
+                cats = [a for a in atoms if isinstance(a, T.App) and a.op == "cat" and len(a.args[0]) == len(o["order"])]
+                if cats:
+                    ok = all(a in covered or a.args[0][k_d].is_zero() for a in cats)
             ck.check(ok, "C20.R5", "ph_grads:aux_bias segment is zero", prog.method("DensityMatrix", "ph_grads").site(), "the assembled phase gradient has a non-zero auxiliary-bias segment")
     with ck.guard("C20.R5", "all-Z branch"):
         # decided on values: on every path of gradient(samples, bases) that finds no rotated site in a group, that group's
